@@ -346,7 +346,7 @@ pub fn extra_c09(spec: &PropSpec, args: &CheckArgs) -> ExtraResult {
             .map(|(i, o)| (i as u8, libtap::decode(&libtap::decoder(*o, lib_key.as_ref()), &valid)))
             .collect();
         for suf in &seqs {
-            let mut b = wire::Builder { buf: valid.clone() };
+            let mut b = wire::Builder { buf: valid.clone(), pad: 0 };
             splice_suffix(&mut b, suf, &raw_key);
             let bytes = b.finish();
             res.evaluations += 1;
@@ -418,7 +418,7 @@ pub fn replay_sweep_c09(kv: &crate::plan::Kv) -> Vec<Violation> {
     b0.push_attr(wire::A_XOR_MAPPED_ADDRESS, &wire::xor_mapped_v4(1234, [10, 0, 0, 1]));
     splice_suffix(&mut b0, &base, &raw_key);
     let valid = b0.buf.clone();
-    let mut b = wire::Builder { buf: valid.clone() };
+    let mut b = wire::Builder { buf: valid.clone(), pad: 0 };
     splice_suffix(&mut b, &suf, &raw_key);
     let bytes = b.finish();
     let mut out: Vec<Violation> = tap_c09(&bytes, lib_key.as_ref(), Some(&raw_key)).into_iter().map(|(k, d)| viol("C09", k, 0, d)).collect();
